@@ -174,6 +174,27 @@ LifeOK(pre, tsp, twp, ev) ==
        /\ SeqSet(Targets(ev, "clr")) = {d \in lostOwner : pre.al[d].clr > 0}
        /\ \A d \in lostOwner : Before(ev, <<"clr", d>>, <<"freem", d>>) /\ Before(ev, <<"freem", d>>, <<"freed", d>>)
 
+\* ---- the operations explored in every state (wf: allocations may be made to fail)
+OKs2(wf) == IF wf THEN {<<TRUE, TRUE>>, <<FALSE, TRUE>>, <<TRUE, FALSE>>} ELSE {<<TRUE, TRUE>>}
+OKs1(wf) == IF wf THEN {<<TRUE>>, <<FALSE>>} ELSE {<<TRUE>>}
+OpSetF(wf) ==
+    {[op |-> "salloc", s |-> s, clr |-> c, ok |-> k, zero |-> FALSE] : s \in SP, c \in (IF NW >= 1 THEN 0..3 ELSE 0..1), k \in OKs2(wf)}
+    \cup {[op |-> "salloc", s |-> s, clr |-> 0, ok |-> <<TRUE, TRUE>>, zero |-> TRUE] : s \in SP}
+    \cup {[op |-> "share", e |-> e, n |-> n] : e \in SP, n \in SP}
+    \cup {[op |-> "sswap", a |-> p[1], b |-> p[2]] : p \in {x \in SP \X SP : x[1] <= x[2]}}
+    \cup {[op |-> "sreset", s |-> s] : s \in SP} \cup {[op |-> "sget", s |-> s] : s \in SP}
+    \cup {[op |-> "sunique", s |-> s] : s \in SP}
+    \cup {[op |-> "wfrom", w |-> w, s |-> s] : w \in WP, s \in SP}
+    \cup {[op |-> "wlock", w |-> w, s |-> s] : w \in WP, s \in SP}
+    \cup {[op |-> "wswap", a |-> p[1], b |-> p[2]] : p \in {x \in WP \X WP : x[1] <= x[2]}}
+    \cup {[op |-> "wreset", w |-> w] : w \in WP}
+    \cup {[op |-> "ualloc", u |-> u, clr |-> c, ok |-> k, zero |-> FALSE] : u \in UP, c \in BOOLEAN, k \in OKs1(wf)}
+    \cup {[op |-> "ualloc", u |-> u, clr |-> FALSE, ok |-> <<TRUE>>, zero |-> TRUE] : u \in UP}
+    \cup {[op |-> "urelease", u |-> u, outs |-> x] : u \in UP, x \in 0..3} \cup {[op |-> "ureset", u |-> u] : u \in UP}
+    \cup {[op |-> "uget", u |-> u] : u \in UP}
+    \cup {[op |-> "uswap", a |-> p[1], b |-> p[2]] : p \in {x \in UP \X UP : x[1] <= x[2]}}
+\* the allocator's live set according to the model's own events
+
 (***************************************************************************)
 (* C20: which (function, argument position) pairs read the guard of the    *)
 (* object in that position.  A stray bit-copy in such a position must make *)
